@@ -5,6 +5,7 @@ import (
 	"encoding/json"
 	"errors"
 	"fmt"
+	"hash/crc32"
 	"io"
 	"os"
 	"path/filepath"
@@ -298,7 +299,11 @@ func unpackMain() int {
 				g = gs[0]
 			}
 		}
-		obs, infra := unpackOnce(base, hdr, g, &c, w, n)
+		// the variants of a replay (tar format, spelling of dst, fault offset) are a function of the archive, not of
+		// the order of arrival: a finding replays the same way, and format and spelling vary independently
+		hb, _ := json.Marshal(c.Hist)
+		hv := int64(crc32.ChecksumIEEE(hb))
+		obs, infra := unpackOnce(base, hdr, g, &c, w, hv)
 		if infra != "" {
 			acc.Infra(infra)
 			return
@@ -470,7 +475,7 @@ func unpackOnce(base string, h *uHeader, g *arena.Gamma, c *uCase, w int, n int6
 		p.Unpack(bytes.NewReader(tarx.GzipPlain(tb0)), filepath.Dir(dst))
 	}
 	// dst may be spelled with a trailing slash or a trailing "/." (same directory)
-	dst += []string{"", "/", "/."}[int(n)%3]
+	dst += []string{"", "/", "/."}[int(n/3)%3]
 	if unpriv {
 		if c.Fault != nil || len(h.Allow) > 0 {
 			return nil, "unprivileged replay has no fault / allow-list mode"
